@@ -234,6 +234,26 @@ Definition blind_only (dev : bytes) (d u : list edge_view) : bool :=
 Definition converged (c : scase) (ph : phase) : bool :=
   views_eqb (canon (sc_dev c) (ph_d ph)) (canon (sc_dev c) (ph_u ph)).
 
+(* what the recursion theorem (C02_recursion_converges) predicts for a placement that both sides held when the
+   link came back, when nothing else is written meanwhile: on both sides exactly the newer point per identity of
+   the two they held - nothing older, and nothing that neither side held *)
+Definition strip_sort (ps : list point) : list point := sort_points (map strip_origin ps).
+Definition exact_join (dev : bytes) (prev_d prev_u last_d last_u : list edge_view) : bool :=
+  forallb (fun vd =>
+    match find_view prev_u (if bytes_eqb (v_down vd) dev then v_up (match dev_view dev prev_u with Some w => w | None => vd end) else v_up vd) (v_down vd) with
+    | None => true                                   (* held by one side only: transferred as a whole, not compared here *)
+    | Some vu =>
+        let want_n := newest (map strip_origin (v_npts vd)) (map strip_origin (v_npts vu)) in
+        let want_e := newest (map strip_origin (v_epts vd)) (map strip_origin (v_epts vu)) in
+        let is_dev := bytes_eqb (v_down vd) dev in
+        forallb (fun side : list edge_view =>
+                   match find (fun v => bytes_eqb (v_down v) (v_down vd) && (is_dev || bytes_eqb (v_up v) (v_up vd))) side with
+                   | Some v => points_eqb (strip_sort (v_npts v)) want_n &&
+                               (is_dev || points_eqb (strip_sort (v_epts v)) want_e)
+                   | None => false
+                   end) [last_d; last_u]
+    end) prev_d.
+
 (* hard part: no error, no accepted write lost, and whenever the link is up every difference that the hash
    comparison can see is gone *)
 Definition spec_c02 (c : scase) : bool :=
@@ -242,7 +262,10 @@ Definition spec_c02 (c : scase) : bool :=
   match final_phases c with
   | Some (prev, last) =>
       covers (canon (sc_dev c) (ph_d last)) (canon (sc_dev c) (ph_d prev)) &&
-      covers (canon (sc_dev c) (ph_u last)) (canon (sc_dev c) (ph_u prev))
+      covers (canon (sc_dev c) (ph_u last)) (canon (sc_dev c) (ph_u prev)) &&
+      (* the theorem's conclusion, whenever the catch-up ran undisturbed and ended converged *)
+      (if negb (ph_up prev) && match ph_ops last with [] => true | _ => false end && converged c last
+       then exact_join (sc_dev c) (ph_d prev) (ph_u prev) (ph_d last) (ph_u last) else true)
   | None => true
   end.
 (* the full convergence clause of the property (coded separately: its failures that pass [spec_c02] are
